@@ -1,8 +1,11 @@
 """C23 — flat combining executes each request exactly once under mutual exclusion (DESIGN 7, C23).
 
-Coq: Properties/Properties_C23.v (model LV.Model.FcKernel).  Tie: step correspondence of the real
-cds::algo::flat_combining::kernel (counting container, harness/C23/main.cpp) with the extracted model on
-generated programs x schedules.  Monitors on the real code: occupancy of fc_apply/fc_process, per-request
+Coq: Properties/Properties_C23.v (models LV.Model.FcKernel and LV.Model.FcKernelWake).  Tie: step correspondence
+of the real cds::algo::flat_combining::kernel (counting container, harness/C23/main.cpp) with the extracted model
+on generated programs x schedules, for two wait strategies: wait_strategy::backoff (cfg[4] = 0, model
+LV.Model.FcKernel) and a condition-variable style strategy whose wait() loads the request word and reports the
+per-record notification flag and whose wakeup() calls kernel::wakeup_any() (cfg[4] = 1, model
+LV.Model.FcKernelWake with the wakeup inside the combiner lock), the latter also with kernel::invoke_exclusive.  Monitors on the real code: occupancy of fc_apply/fc_process, per-request
 execution counter, accesses to freed (zero-poisoned, quarantined) publication records, and the trace
 predicate of the theorems (fc_util.fc_monitor) evaluated on the implementation's own event log."""
 import os, json
@@ -12,14 +15,20 @@ SIG_UAF = "fc-compact-free-while-linked"
 WHAT_UAF = ("flat_combining::kernel::compact_list frees a publication record that is still linked in the publication list "
             "(owner exits between loop 1 and loop 2); a later combining pass reads the freed record")
 WHAT_UAF_OTHER = "a publication record of flat_combining::kernel is accessed after compact_list freed it (poisoned-record monitor on the real code)"
+WHAT_UAF_WAKE = ("flat_combining::kernel::wakeup_any() - called by a wait strategy's wakeup() - reads a publication record after another "
+                 "combiner's compact_list freed it: wakeup() runs without the combiner lock (poisoned-record monitor on the real code)")
+WHAT_REAL = ("flat combining with a condition-variable wait strategy on real threads: a requester observed req_Response although its request "
+             "was not executed exactly once, or two threads were inside fc_apply/fc_process at the same time (unscheduled run, harness/C23/real.cpp)")
 WHAT_HANG = "the real flat_combining::kernel crashes or does not terminate on a case the model finishes"
 
 
 def gen_cases(ctx, n, prefix="g"):
+    """half of the cases use the condition-variable style strategy (cfg[4] = 1); those may contain invoke_exclusive ([4])"""
     rng = ctx.rng
     cases = []
     for i in range(n):
         nthreads = 2 + rng.below(3)
+        wake = rng.chance(1, 2)
         rid = 0
         threads = []
         for t in range(nthreads):
@@ -27,12 +36,44 @@ def gen_cases(ctx, n, prefix="g"):
             for _ in range(1 + rng.below(3)):
                 if rng.chance(1, 5):
                     ops.append([3])
+                elif wake and rng.chance(1, 6):
+                    ops.append([4])
                 else:
                     ops.append([1 if rng.chance(1, 2) else 2, rid]); rid += 1
             threads.append(ops)
-        sched, kind = fc_util.gen_sched(rng, nthreads)
-        cases.append({"id": "%s%d" % (prefix, i), "cfg": [1 + rng.below(2), 1 + rng.below(2), 400], "threads": threads, "sched": sched, "kind": kind})
+        if wake and rng.chance(1, 3):
+            sched, kind = wake_sched(rng, nthreads), "wake-race"
+        else:
+            sched, kind = fc_util.gen_sched(rng, nthreads)
+        cfg = [1 + rng.below(2), 1 + rng.below(2), 400]
+        if wake:
+            cfg += [1, 1]
+        cases.append({"id": "%s%d" % (prefix, i), "cfg": cfg, "threads": threads, "sched": sched, "kind": kind})
     return cases
+
+
+def wake_sched(rng, nthreads):
+    """aimed at wakeup_any(): thread a takes the combiner lock and is parked; the others publish and wait (one of them
+    is parked inside wait_for_combining just before its try_lock); a serves them and unlocks; a waiter wins try_lock,
+    finds its request answered and walks the publication list while the others return, exit, and combine again"""
+    a = rng.below(nthreads)
+    s = [a] * (13 + rng.below(3))
+    others = [t for t in range(nthreads) if t != a]
+    for i in range(len(others) - 1, 0, -1):
+        j = rng.below(i + 1); others[i], others[j] = others[j], others[i]
+    for t in others:
+        s += [t] * (13 + rng.below(6))
+    s += [a] * (30 + rng.below(30))
+    w = others[0]
+    rest = others[1:] + [a]
+    for t in others[1:]:
+        s += [t] * (2 + rng.below(6))
+    s += [w] * (3 + rng.below(6))
+    for _ in range(3):
+        t = rest[rng.below(len(rest))]
+        s += [t] * (20 + rng.below(50))
+        s += [w] * (1 + rng.below(4))
+    return s
 
 
 def features(lines):
@@ -55,10 +96,30 @@ def features(lines):
                 f.add("record_freed")
             if t[2] == "uaf":
                 f.add("uaf")
+            if t[2] == "excl":
+                f.add("invoke_exclusive")
             prev_exec = (t[2] == "exec")
         else:
             prev_exec = False
     return f
+
+
+def wakeup_path(lines):
+    """a "lock" by a thread whose next client event is "unlock" with no faa on the counter in between: the branch of
+    wait_for_combining that calls m_waitStrategy.wakeup() (or an invoke_exclusive)"""
+    holder = None; combined = False
+    for l in lines:
+        t = l.split(" ")
+        if t[1] == "ev" and t[2] == "lock":
+            holder = t[0]; combined = False
+        elif holder is not None and t[0] == holder:
+            if t[1] == "faa":
+                combined = True
+            if t[1] == "ev" and t[2] == "unlock":
+                if not combined:
+                    return True
+                holder = None
+    return False
 
 
 def analyse(ctx, c, m, i, stats, report=True):
@@ -86,21 +147,56 @@ def analyse(ctx, c, m, i, stats, report=True):
     if fail is None and m.get("lost", 0) > 0 and m["end"] == "finished":
         fail = "the model releases a publication record whose request was not answered (the containers' compiled-out assert( pRec->is_done()) would fail) and the real code follows the same steps"
     known = (fail == "uaf" and d is None and nu > 0)
+    if mon.get("woken", 0) > 0:
+        stats["impl_waits_woken_by_notification"] = stats.get("impl_waits_woken_by_notification", 0) + mon.get("woken", 0)
+        stats["cases_with_woken_wait"] = stats.get("cases_with_woken_wait", 0) + 1
     if fail == "uaf":
-        fail = WHAT_UAF if known else WHAT_UAF_OTHER
+        fail = WHAT_UAF if known else (WHAT_UAF_WAKE if len(c.get("cfg", [])) > 4 and c["cfg"][4] == 1 else WHAT_UAF_OTHER)
         stats["detail"] = "%d accesses after free" % mon.get("uaf", 0)
     return (d, fail, known)
+
+
+def real_threads(ctx, rounds, reps=1, args=None):
+    """unscheduled supplementary search: the three real condition-variable strategies, monitors of the property itself.
+    Only hard violations count: a wrong execution counter / result at the response, occupancy > 1, a crash, no termination."""
+    rsrc = os.path.join(vcheck.VERIF, "harness/C23/real.cpp")
+    rexe = vcheck.cxx_build([rsrc] + fc_util.BOOST_LIBS, os.path.join(ctx.work, "real"), hook=False, link_cds=False, opt="-O2")
+    st = {"runs": 0, "requests": 0, "invoke_exclusive": 0, "thread_exits": 0, "violations": 0}
+    for k in range(rounds):
+        a = args if args is not None else [str([3, 4, 6][ctx.rng.below(3)]), "1500", "0.6", str(1 + ctx.rng.below(1000000))]
+        for _ in range(reps):
+            rc, out = vcheck.sh([rexe] + a, timeout=90)
+            st["runs"] += 1
+            lines = [l.split() for l in out.split("\n") if l.startswith("real ")]
+            bad = None
+            if rc != 0 or len(lines) != 3:
+                bad = "crash or no termination (exit status %s, %d of 3 strategies finished)" % (rc, len(lines))
+            for t in lines:
+                d = dict(zip(t[2::2], t[3::2]))
+                st["requests"] += int(d.get("ops", 0)); st["invoke_exclusive"] += int(d.get("excl", 0)); st["thread_exits"] += int(d.get("exits", 0))
+                if int(d.get("bad_exec", 0)) > 0 or int(d.get("early_response", 0)) > 0 or int(d.get("max_inside", 0)) > 1:
+                    bad = "strategy %s: %s" % (t[1], " ".join(t[2:]))
+            if bad:
+                st["violations"] += 1
+                ctx.violation(WHAT_REAL, {"real_args": a, "detail": bad, "output": out[-1500:],
+                                          "how_to_rerun": "harness/C23/real.cpp built without the hook; arguments: threads, requests per thread, seconds per strategy, seed (real threads: not deterministic)"})
+                return st
+    return st
 
 
 def run(ctx):
     res = vcheck.coq_build(["Properties/Properties_C23.v"])
     ctx.coq_evidence(res)
-    model = conc_check.build_model(ctx, "Extract_FcKernel.v")
+    model = conc_check.build_model(ctx, "Extract_FcKernelWake.v")
     src = os.path.join(vcheck.VERIF, "harness/C23/main.cpp")
     impl = vcheck.cxx_build([src] + fc_util.BOOST_LIBS, os.path.join(ctx.work, "harness"), hook=True, link_cds=False)
 
     if ctx.replay:
         rp = json.load(open(ctx.replay))
+        if "real_args" in rp:
+            st = real_threads(ctx, 1, reps=20, args=rp["real_args"])
+            ctx.coverage.update({"evaluations": st["runs"], "distinct_nontrivial": st["runs"], "rule": "re-runs of one real-thread configuration", "real_threads": st})
+            return ctx.finish(vcheck.STD_TRUSTED, ["real threads: the run is not deterministic"])
         cases = [rp["case"]]
     else:
         cases = []
@@ -114,7 +210,7 @@ def run(ctx):
 
     rc1, mlog, rc2, ilog, raw = fc_util.run_both_par(ctx, model, impl, cases, timeout=(900 if ctx.thorough() else 240))
     stats = {}
-    shapes = set(); nontrivial = set(); feat_hist = {}; kind_hist = {}; steps = 0
+    shapes = set(); nontrivial = set(); feat_hist = {}; kind_hist = {}; strat_hist = {}; steps = 0
     diverged = 0; first_div = None; concrete = 0; known_uaf = 0
     for c in cases:
         m = mlog.get(c["id"]); i = ilog.get(c["id"])
@@ -127,6 +223,13 @@ def run(ctx):
             if f & {"helped", "pair_collided", "record_freed", "cas_failed"}:
                 nontrivial.add(h)
             kind_hist[c.get("kind", "corpus")] = kind_hist.get(c.get("kind", "corpus"), 0) + 1
+            sk = "wakeup_any" if len(c.get("cfg", [])) > 4 and c["cfg"][4] == 1 else "backoff"
+            strat_hist[sk] = strat_hist.get(sk, 0) + 1
+            if sk == "wakeup_any" and any(" ev lock" in l for l in m["lines"]):
+                # the walk of wakeup_any shows as loads between "lock" and "unlock" by a thread that executes nothing; count
+                # the cases in which a requester found its request answered after try_lock (the path that calls wakeup())
+                if wakeup_path(m["lines"]):
+                    feat_hist["wakeup_after_trylock"] = feat_hist.get("wakeup_after_trylock", 0) + 1
         if i is not None:
             steps += len(i["lines"])
         d, fail, known = analyse(ctx, c, m, i, stats)
@@ -179,6 +282,10 @@ def run(ctx):
             ctx.violation("step correspondence between LV.Model.FcKernel and cds/algo/flat_combining/kernel.h no longer holds",
                           {"correspondence": "Model/FcKernel.v vs cds::algo::flat_combining::kernel (counting container)", "case": c, "first_divergence": d}, no_input=True)
 
+    real = None
+    if not ctx.replay:
+        real = real_threads(ctx, 12 if ctx.thorough() else 4)
+
     asan = None
     if ctx.thorough() and not ctx.replay:
         # really free the records and let AddressSanitizer watch (no log comparison: the run may abort)
@@ -207,16 +314,18 @@ def run(ctx):
         ctx.violation("Coq obligations of C23 do not check: %s" % (res.failed[:2],), {"theorem": [f[2] for f in res.failed], "errors": res.failed[:3]}, no_input=True)
     ctx.coverage.update({
         "evaluations": len(cases), "distinct_nontrivial": len(nontrivial),
-        "rule": "program x schedule pairs (2-4 threads, 1-3 operations each: request through combine / batch_combine, thread exit; compact factor 1-2, combine pass count 1-2; uniform, bursty, run-then-switch and PCT-like schedules from one splitmix64 stream); distinct = distinct model event logs; non-trivial = a request executed by another thread's combiner session, a pair completed by fc_process, a failed CAS, or a record freed by compact_list",
+        "rule": "program x schedule pairs (2-4 threads, 1-3 operations each: request through combine / batch_combine, thread exit, and - with the wakeup_any strategy, half of the cases - invoke_exclusive; compact factor 1-2, combine pass count 1-2; uniform, bursty, run-then-switch, PCT-like and wakeup-race schedules from one splitmix64 stream); distinct = distinct model event logs; non-trivial = a request executed by another thread's combiner session, a pair completed by fc_process, a failed CAS, or a record freed by compact_list",
         "distinct_event_logs": len(shapes), "impl_steps_compared": steps, "diverged": diverged, "corpus_cases": ncorpus,
         "traces_validated_against_impl": len(cases) - diverged, "feature_histogram": feat_hist, "schedule_kinds": kind_hist,
+        "wait_strategies": strat_hist, "impl_waits_woken_by_notification": stats.get("impl_waits_woken_by_notification", 0),
+        "cases_with_woken_wait": stats.get("cases_with_woken_wait", 0), "real_threads": real,
         "cases_showing_known_free_while_linked": known_uaf, "asan": asan,
         "model_lost_markers": stats.get("model_lost_markers", 0), "model_uaf_markers": stats.get("model_uaf_markers", 0),
         "samples": [cases[ncorpus]] if len(cases) > ncorpus else cases[:1],
-        "modelled": "cds::algo::flat_combining::kernel: acquire_record, publish, republish, combine, batch_combine, try_combining, wait_for_combining, combining, combining_pass, batch_combining, iterator/skip_inactive, operation_done, compact_list, tls_cleanup, release_record",
+        "modelled": "cds::algo::flat_combining::kernel: acquire_record, publish, republish, combine, batch_combine, try_combining, wait_for_combining (incl. the calls of the wait strategy's wait / wakeup), combining, combining_pass, batch_combining, iterator/skip_inactive, operation_done, compact_list, tls_cleanup, release_record, wakeup_any, invoke_exclusive (cds::sync::spin::lock)",
     })
     return ctx.finish(vcheck.STD_TRUSTED + ["hook layer: khizmax_libcds_verif::atomic<T>, baton scheduler, event log (hooks/include)", "ocaml/conc_main.ml event printer",
-                                            "harness/C23 counting container, lock_type wrapper (lock/unlock events) and quarantine allocator", "boost::thread_specific_ptr (thread exit is executed as m_pThreadRec.reset() inside the scheduled region)"],
+                                            "harness/C23 counting container, lock_type wrapper (lock/unlock events), quarantine allocator and wake_strategy (multi_mutex_multi_condvar without its mutex and condition variable)", "boost::thread_specific_ptr (thread exit is executed as m_pThreadRec.reset() inside the scheduled region)"],
                       ["sequential consistency: memory_order arguments are not modelled", "compare_exchange_weak never fails spuriously under the hook",
-                       "wait_strategy::backoff (spin on the request word); the condition-variable wait strategies are not run under the scheduler",
+                       "wait strategies under the scheduler: wait_strategy::backoff, and a strategy with the atomic accesses, the notification flag and the wakeup_any() call of multi_mutex_multi_condvar but without its std::mutex / std::condition_variable (a wait that would block is a wait that timed out); the three real condition-variable strategies run only in the unscheduled real-thread search (harness/C23/real.cpp)",
                        "freed records are zero-filled by the harness allocator and by the model (what a later reader sees is allocator-dependent in reality)"])
